@@ -21,7 +21,11 @@ GOTYPE_ASSUME = [
     "raw pointers / unsafe offsets are modelled as paths into the target value (exact under the LIFO discipline every run obeys)",
 ]
 
-def P(design, technique, explanation, level_text, tb=None, assumptions=None, partial=None):
+def P(design, technique, *texts, tb=None, assumptions=None, partial=None):
+    # texts: explanation fragments followed by the level text (the LAST positional string); a
+    # fragment added after a trailing comma is therefore just one more piece of the explanation
+    assert len(texts) >= 2, "explanation and level text required"
+    explanation, level_text = "".join(texts[:-1]), texts[-1]
     return dict(design=design, technique=technique, explanation=explanation, level_text=level_text,
                 trusted_base=COMMON_TB + (tb or []), assumptions=assumptions or CODEC_ASSUME, partial=partial or "")
 
@@ -127,8 +131,8 @@ PROPS = {
    "UBJSON encoder's bytes are the wire form of a well-formed UBJSON item (grammar SF/Proofs/UbjWire.lean: plain, counted, "
    "typed containers), the reference decoder reads them back as exactly one value = the tree's value up to the oracle's "
    "approxUbj (proved equal to it: approx_is_oracle), exactly equal when no number exceeds MaxInt64; ubj_spec_roundtrip_stream.",
-   "Kernel-checked for CBOR and UBJSON against independent grammars + reference decoders; JSON by mirror + correspondence + oracle.",
-   partial="JSON encoder: no theorem yet"),
+   "Kernel-checked for CBOR and UBJSON against independent grammars + reference decoders, and for JSON on float-free streams (PropsJson.C07 json_output_decodes, string_token_*, int_literal_*; C01 json_encoder_writes_grammar: the output is a grammatical RFC 8259 text); JSON floats by mirror + correspondence + oracle.",
+   partial="JSON float literals (strconv.AppendFloat shortest decimal; explicit radix point option): modelled, decided by the reference decoder as oracle"),
  "C08": P("DESIGN.md 7 C08",
    "Lean 4 proof (all nine pairs: corollaries of the three parser refinements, the contract theorems and the three encoder refinements) + differential correspondence",
    "cbor_to_cbor: parser events of any supported item in any spelling fed to the encoder give a valid document with the "
@@ -178,10 +182,10 @@ PROPS = {
    "self-referential and mutually recursive types with finite values, pointers, interfaces holding every dynamic type, "
    "nil vs empty containers, unsupported kinds (must be refused with an error, never a crash). Oracle independent of the "
    "mirrors: result ok and deeply equal to the original modulo nil = empty, omitted-when-empty / dropped fields zero.",
-   "Kernel-checked scalar round trip for all widths and values; containers, structs, pointers and the codec paths by mirror + correspondence + oracle.",
+   "Kernel-checked: scalar round trip for all widths and values; the two halves for containers — fold side = documented rules on the universe goodT (C12 fold_agrees / fold_refuses: a type that cannot be handled is REFUSED, never a crash), unfold side = typed assignment for primitive slices / maps and the generic clause (C13), no panic on typed targets (C14) — and the codec legs (C01 round trips for all three formats); their composition over structs and pointers by mirror + correspondence (`fu`, four paths) + oracle.",
    tb=["models: SF/Gotype/Fold.lean, SF/Gotype/Unfold.lean, codec mirrors; composition SF/Ops/Fu.lean; translation between the two type universes SF/Gotype/Translate.lean"],
    assumptions=GOTYPE_ASSUME,
-   partial="fold_unfold_id over all supported types and values (statement in Props/C11.lean) not yet proved; decided by oracle on generated types x values x paths"),
+   partial="the composed statement fold_unfold_id over all supported types and values (struct and pointer targets on the unfold side) is not proved as ONE theorem; decided by oracle on generated types x values x paths"),
  "C12": P("DESIGN.md 7 C12",
    "Lean 4 proof (the Fold mirror agrees with the independent Rules specification on a decidable universe of types x all their values, both directions; tag parser = documented tag grammar for every tag string) + differential correspondence of the Fold mirror + Rules as oracle",
    "fold_agrees / fold_agrees_inputs: for EVERY type of the universe goodT (all scalar kinds, interface{}, slices, arrays incl. typed-array fast paths, pointers, "
@@ -291,8 +295,8 @@ PROPS = {
    "ubj_parser_reuse_any / ubj_parser_reuse_chunks: after any history of grammatical documents the UBJSON parser is idle up to its event log and the scratch "
    "field valueType, and for EVERY probe byte string (malformed and truncated included, any chunking) returns the verdict and events of a new parser "
    "(frame theorem over every reachable state without a live typed-array header). Unfolder: Props/C14 reset_then_setTarget_is_fresh; fold iterator: ops fold-seq, foldopts.",
-   "Kernel-checked for encoder and parser of all three formats; pull decoders, fold iterator and unfolder by mirror + correspondence + oracle (unfolder: C14 theorem).",
-   partial="pull decoders of UBJSON / JSON, fold iterator: no theorem yet; JSON parser: probes restricted to grammatical texts"),
+   "Kernel-checked for encoder and parser of all three formats, for the three pull decoders (C18: every Next after the first is a reuse; the stream theorems give each document exactly its events) and for the Unfolder (C14 reset_then_setTarget_is_fresh, typed_complete_is_idle); fold iterator by mirror + correspondence + oracle.",
+   partial="fold iterator: the mirror has no registry state (reuse = fresh holds by construction there); the tie is the correspondence of fold-seq / foldopts histories; JSON parser: probes restricted to grammatical texts"),
  "C18": P("DESIGN.md 7 C18",
    "Lean 4 proof (CBOR, JSON and UBJSON decoders, byte-slice and reader-driven: one value per Next then clean EOF for every split into reads; truncation => error; read-size independence on arbitrary bytes; termination) + differential correspondence over read scripts",
    "reader_decoder_stream / reader_decoder_truncated(_one) / reader_chunking_independent / reader_eq_bytes_decoder / "
